@@ -31,6 +31,7 @@ FixF17 == TRUE
 FixF18 == TRUE
 FixF20 == TRUE
 FixF28 == TRUE
+FixF30 == TRUE
 FixF22 == TRUE
 FixF23 == TRUE
 FixF24 == TRUE
@@ -252,7 +253,19 @@ SqlAppendUnary(op, S) ==
                          ApplySkip(inner, merged, NoProj, FALSE, 0, -1))
                  ELSE ApplySkip(S.skip, merged, S.proj, S.dedup, S.a, S.b)
       [] op.o = "pjoin" ->
-            IF FixF24 /\ AsTrivial(op.p) = "T" /\ JoinIdentity(S) /\ Eng(op.fixed) # Eng(S) THEN op.fixed
+            \* sql.Engine.append_binary as coded: with a trivially true predicate the operand that is a join
+            \* identity is ignored (the lhs is asked first) and the other one KEPT.
+            \* (fix of finding F24) a kept operand of another engine is handed back as it is;
+            \* (fix of finding F30) when the IGNORED operand belongs to another engine it is not conformed
+            \* either: the kept operand (conformed) is the result
+            LET l == IF op.lhs THEN op.fixed ELSE S
+                r == IF op.lhs THEN S ELSE op.fixed
+                some == AsTrivial(op.p) = "T" /\ (JoinIdentity(l) \/ JoinIdentity(r))
+                kept == IF JoinIdentity(l) THEN r ELSE l
+                dropped == IF JoinIdentity(l) THEN l ELSE r
+            IN
+            IF FixF24 /\ some /\ Eng(kept) # Eng(S) THEN kept
+            ELSE IF FixF30 /\ some /\ Eng(dropped) # Eng(S) THEN Conform(kept)
             ELSE Bind(Conform(op.fixed), LAMBDA f : IF op.lhs THEN SqlAppendBinary(JoinOp(op.p, op.common), f, S)
                                                    ELSE SqlAppendBinary(JoinOp(op.p, op.common), S, f))
       [] op.o = "id" -> S
